@@ -570,7 +570,7 @@ func run(c *hx.Ctx) error {
 	fails := map[int]failing{}
 	var sigOrder []string
 	firstLegacy := map[string]int{}
-	shortestForms := map[string]int{}   // signature + class of the original case -> shortest case
+	shortestForms := map[string]int{}     // signature + class of the original case -> shortest case
 	formsBuckets := map[string][]string{} // signature -> its keys in shortestForms
 	sigOfCase := func(bb lexh.BuildCase) string {
 		r2 := buildOne(bb)
@@ -672,6 +672,9 @@ func run(c *hx.Ctx) error {
 		}
 		if br.Status == "HANG" {
 			budget = 10 // every failing probe costs the timeout
+		}
+		if sz := size(b); sz > 1500 { // large sources (the scale forms): every probe is a long build
+			budget = min(budget, 1500*1000/sz+200)
 		}
 		nShrunk++
 		min := b
@@ -874,7 +877,9 @@ var digitsRe = regexp.MustCompile(`[0-9]+`)
 var exprSuffixRe = regexp.MustCompile(` \(expr: .*\)$`)
 
 // normMsg is a panic or error message without what varies with the input: numbers, the expression quoted at its end.
-func normMsg(m string) string { return digitsRe.ReplaceAllString(exprSuffixRe.ReplaceAllString(m, ""), "#") }
+func normMsg(m string) string {
+	return digitsRe.ReplaceAllString(exprSuffixRe.ReplaceAllString(m, ""), "#")
+}
 
 var pkgClauseRe = regexp.MustCompile(`^[ \t\n]*package[ \t]+[A-Za-z_][A-Za-z0-9_]*`)
 
